@@ -67,8 +67,8 @@ impl TargetId {
 //@replace `target_name.split("::").collect::<Vec<_>>()` => `split_collect(target_name, "::")` rule=R13 why=`str::split(..).collect() -> prelude stub returning the pieces (A-str)`
 //@contract
     ensures
-        /*[C19.parse]*/ r matches Ok(id) ==> parse_ref(target_name@, *current_project) == Some(id_view(id)),
-        /*[C19.parse]*/ r is Err ==> parse_ref(target_name@, *current_project) is None,
+        /*[C19.parse,C09.ref-parse,C18.identity]*/ r matches Ok(id) ==> parse_ref(target_name@, *current_project) == Some(id_view(id)),
+        /*[C19.parse,C09.ref-parse]*/ r is Err ==> parse_ref(target_name@, *current_project) is None,
 //@pre
         broadcast use axiom_split;
         proof { reveal_strlit("::"); assert("::"@ =~= sep()); }
@@ -152,16 +152,16 @@ impl TargetId {
 //@lsubst Self::try_parse => TargetId::try_parse
 //@contract
     ensures
-        /*[C19.parse]*/ r matches Ok(id) ==> parse_ref(target_name@, *current_project) == Some(id_view(id)),
-        /*[C19.parse]*/ r is Err ==> parse_ref(target_name@, *current_project) is None,
+        /*[C19.parse,C09.ref-parse,C18.identity]*/ r matches Ok(id) ==> parse_ref(target_name@, *current_project) == Some(id_view(id)),
+        /*[C19.parse,C09.ref-parse]*/ r is Err ==> parse_ref(target_name@, *current_project) is None,
 //@end
 //@fn src/domain.rs TargetId::try_parse_many ret=r
 //@lsubst Self => TargetId
 //@closure 0 skeleton=`target_names .iter() .map(<CLOSURE>) .collect()` becomes=`map_collect_results(target_names, current_project)`
 //@contract
     ensures
-        /*[C19.parse]*/ r matches Ok(v) ==> parse_many(target_names@, *current_project) == Some(id_views(v@)),
-        /*[C19.parse]*/ r is Err ==> parse_many(target_names@, *current_project) is None,
+        /*[C19.parse,C09.ref-parse,C18.identity]*/ r matches Ok(v) ==> parse_many(target_names@, *current_project) == Some(id_views(v@)),
+        /*[C19.parse,C09.ref-parse]*/ r is Err ==> parse_many(target_names@, *current_project) is None,
 //@end
 }
 
